@@ -12,10 +12,10 @@ var commonAssumptions = []string{
 // CheckC01: inbound packets are authentic.
 func modelsC01(tier string) ([]*PktModel, []int) {
 	props := map[string]bool{"C01": true}
-	models := []*PktModel{core2("core2", props, "try"), core3("core3", props, "try")}
-	depth := []int{7, 6}
+	models := []*PktModel{core2("core2", props, "try"), core3("core3", props, "try"), core3UnknownDestination("core3-unknown-destination", props, "try")}
+	depth := []int{7, 6, 6}
 	if tier == "thorough" {
-		depth = []int{10, 9}
+		depth = []int{10, 9, 8}
 		core4 := core3("core4", props, "try")
 		core4.Names = []string{A, B, C, D}
 		models = append(models, core2("core2-tx-probes", props, "tx"), withCleans(core2("core2-cleans", props, "try"), 3), withCleans(core3("core3-cleans", props, "try"), 2), core4)
